@@ -47,13 +47,14 @@ FIELDS = {
     "float": ("{%s:f}", ("CFloat", True, False, "VFloatText"), None, None),
     "number": ("{%s:Number}", ("CDigit", True, False, "VInt"), "(?P<%s>\\d+)", ("CDigit", True, False)),
     "small": ("{%s:Small}", ("CDigit", True, False, "VSmallInt"), None, None),
+    "zeronone": ("{%s:ZeroNone}", ("CDigit", True, False, "VZeroNone"), None, None),
     "nonspace": ("{%s:S}", ("CNonSpace", True, False, "VText"), "(?P<%s>\\S+)", ("CNonSpace", True, False)),
     "alpha": ("{%s:l}", ("CAlpha", True, False, "VText"), "(?P<%s>[A-Za-z]+)", ("CAlpha", True, False)),
     "greedy": (None, None, "(?P<%s>.+)", ("CAny", True, False)),
     "star": (None, None, "(?P<%s>.*)", ("CAny", True, True)),
 }
 SAMPLE = {"any": ["Alice", "two words", "x and y", "7"], "int": ["12", "-5", "+3", "007"], "word": ["foo", "bar_1", "Ünï"],
-          "float": ["1.5", "-.25", "3.0"], "number": ["4", "42", "100", "250"], "small": ["7", "99", "100", "1234"], "nonspace": ["a-b", "x/y"],
+          "float": ["1.5", "-.25", "3.0"], "number": ["4", "42", "100", "250"], "small": ["7", "99", "100", "1234"], "zeronone": ["0", "5", "00", "10"], "nonspace": ["a-b", "x/y"],
           "alpha": ["abc", "Zed"], "greedy": ["all of it", "z"], "star": ["", "rest"]}
 
 
@@ -186,7 +187,9 @@ class _Step(object):
 
 
 def canon_value(v, original):
-    if isinstance(v, bool) or v is None:
+    if v is None:
+        return ["none"]
+    if isinstance(v, bool):
         return ["other", repr(v)]
     if isinstance(v, int):
         return ["int", v]
@@ -219,7 +222,10 @@ def impl_history(case):
             raise ValueError("too big: %s" % text)
         return v
     factory.use_step_matcher("parse")
-    factory.register_type(Number=number, Small=small)
+    @parse.with_pattern(r"\d+")
+    def zeronone(text):
+        return int(text) or None            # a declared converter may return None
+    factory.register_type(Number=number, Small=small, ZeroNone=zeronone)
     factory.use_default_step_matcher("parse")
     top = tempfile.mkdtemp(prefix="c11_")
     try:
@@ -299,7 +305,7 @@ def intended_regex(pat, kind):
             else:
                 k = a[1]
                 body = {"any": ".+?", "int": "[-+ ]?[-+ ]?[0-9]+" if kind in ("parse", "cfparse") else "[-+]?[0-9]+", "word": r"\w+",
-                        "float": r"[-+ ]?\d*\.\d+", "number": r"\d+", "small": r"\d+", "nonspace": r"\S+", "alpha": "[A-Za-z]+",
+                        "float": r"[-+ ]?\d*\.\d+", "number": r"\d+", "small": r"\d+", "zeronone": r"\d+", "nonspace": r"\S+", "alpha": "[A-Za-z]+",
                         "greedy": ".+", "star": ".*"}[k]
                 parts.append("(%s)" % body)
         outs.append("".join(parts))
@@ -407,6 +413,22 @@ def oracle(case, obs):
                                                                                                  a["original"]), "span-does-not-delimit-original"))
             if [a["start"] for a in args] != sorted(a["start"] for a in args):
                 out.append(("arguments are not in text order: %r" % [a["start"] for a in args], "argument-order"))
+            pat_w = case["patterns"][want[0]]
+            if want[1] in ("parse", "cfparse") and len(pat_w["alts"]) == 1:
+                flds = [x for x in pat_w["alts"][0] if x[0] == "field"]
+                if len(flds) == len(args):
+                    for fld, a in zip(flds, args):
+                        orig = a["original"] or ""
+                        exp = None
+                        if fld[1] in ("number", "small") and orig.isdigit():
+                            exp = ["int", int(orig)]
+                        elif fld[1] == "zeronone" and orig.isdigit():
+                            exp = ["int", int(orig)] if int(orig) else ["none"]
+                        elif fld[1] in ("any", "word", "nonspace", "alpha"):
+                            exp = ["text", orig]
+                        if exp is not None and a["value"] != exp:
+                            out.append(("argument %r of %r: matched text %r, the declared converter (%s) yields %r, the argument carries %r" % (
+                                a["name"], text, orig, fld[1], exp, a["value"]), "argument-not-converted-as-declared"))
             pos = [a["value"] for a in args if a["name"] is None]
             kw = sorted([a["name"], a["value"]] for a in args if a["name"] is not None)
 
@@ -477,6 +499,8 @@ def c_value(v):
         return "(XText %s)" % cstr(v[1])
     if v[0] == "float":
         return "(XFloatOf %s)" % cstr(v[1])
+    if v[0] == "none":
+        return "XNone"
     return None
 
 
@@ -526,7 +550,7 @@ def enc(case, obs):
 EQB = """
 Definition value_eqb (a b : value) : bool :=
   match a, b with
-  | XText x, XText y => ustr_eqb x y | XInt x, XInt y => Z.eqb x y | XFloatOf x, XFloatOf y => ustr_eqb x y | _, _ => false
+  | XText x, XText y => ustr_eqb x y | XInt x, XInt y => Z.eqb x y | XFloatOf x, XFloatOf y => ustr_eqb x y | XNone, XNone => true | _, _ => false
   end.
 Definition arg_eqb (a b : argument) : bool :=
   Nat.eqb (a_start a) (a_start b) && Nat.eqb (a_end a) (a_end b) && ustr_eqb (a_original a) (a_original b) &&
